@@ -929,7 +929,9 @@ Lemma detach_query_ok x s qo q :
     /\ st_lists s' = map (remove_nat qo) (st_lists s)
     /\ cell_of s' qo = Some (CQuery (set_q_conn None q))
     /\ ~ rooted s' qo
-    /\ Own s' (cobjs (q_cb q)).
+    /\ Own s' (cobjs (q_cb q))
+    /\ (forall o, cell_of s' o = if Nat.eqb o qo then Some (CQuery (set_q_conn None q))
+                                 else option_map (strip qo) (cell_of s o)).
 Proof.
   intros I Hx Hl Hq.
   destruct (remove_from_conn_ok _ _ _ _ I Hx Hl Hq)
@@ -995,7 +997,8 @@ Proof.
       - intros o cc H1 H2. exists cc. auto.
       - simpl. lia. }
     exact (frame_trans _ _ _ _ _ F1 F2).
-  - (* Own s2 (cobjs (q_cb q)) *)
+  - (* Own s2 (cobjs (q_cb q)) and the cells *)
+    split; [|intros o; rewrite Hcell; apply Hc1].
     split.
     + rewrite <- Hqc. exact G4.
     + intros o Ho. rewrite <- Hqc in Ho. split.
@@ -1277,7 +1280,8 @@ Lemma new_query_ok s k qid q0 :
   Inv s' /\ Frame s s' (cobjs k) /\ In qo (linked s') /\ cell_of s' qo = Some (CQuery q0)
   /\ (forall o, o <> qo -> cell_of s' o = cell_of s o)
   /\ st_conns s' = st_conns s /\ st_bytmo s' = st_bytmo s
-  /\ (forall x, In x (linked s') <-> In x (linked s) \/ x = qo).
+  /\ (forall x, In x (linked s') <-> In x (linked s) \/ x = qo)
+  /\ (exists l1 l2, linked s = l1 ++ l2 /\ linked s' = l1 ++ qo :: l2).
 Proof.
   intros I [On Oc] Hnh Hfree Ecb Eqid Econn qo s'.
   assert (Hfresh : forall o c, cell_of s o = Some c -> o <> qo).
@@ -1314,7 +1318,7 @@ Proof.
     - apply (Permutation_in _ Pch) in H. apply in_app_or in H. exact H.
     - apply (Permutation_in _ (Permutation_sym Pch)). apply in_or_app. exact H. }
   destruct (inv_chain _ _ I) as [Cn Cc].
-  split; [|split; [|split; [|split; [exact Hqo|split; [exact Hsame|split; [reflexivity|split; [reflexivity|exact Hin]]]]]]].
+  split; [|split; [|split; [|split; [exact Hqo|split; [exact Hsame|split; [reflexivity|split; [reflexivity|split; [exact Hin|exists l1, l2; auto]]]]]]]].
   - constructor.
     + apply (heap_alloc (CQuery q0)). exact (inv_heap _ _ I).
     + rewrite Ell. pose proof (inv_nodup _ _ I) as Hn. rewrite Els in Hn.
@@ -1535,7 +1539,9 @@ Lemma attach_run s qo q co c tcp :
   In co (st_conns s) -> cell_of s co = Some (CConn c) -> c_closed c = false ->
   exists s', attach_frag qo co tcp s = Ok (tt, s') /\ Inv s' /\ Frame s s' []
     /\ linked s' = linked s /\ st_conns s' = st_conns s /\ st_tape s' = st_tape s
-    /\ st_scripts s' = st_scripts s /\ st_byqid s' = st_byqid s.
+    /\ st_scripts s' = st_scripts s /\ st_byqid s' = st_byqid s /\ st_trace s' = st_trace s
+    /\ (forall o q0, cell_of s o = Some (CQuery q0) ->
+          exists q1, cell_of s' o = Some (CQuery q1) /\ q_cb q1 = q_cb q0).
 Proof.
   intros I Hl Hq Hin Hc Hncl.
   pose proof (inv_heap _ _ I) as Hh.
@@ -1579,7 +1585,12 @@ Proof.
   - eapply heap_store; eauto.
   - intros o. unfold s4. rewrite cell_store. destruct (Nat.eqb o qo) eqn:E; auto.
     unfold s3. rewrite cell_store. destruct (Nat.eqb o co) eqn:E'; auto.
-  - split; [exact I4|]. split; [exact F4|]. split; [exact Ell|]. repeat split.
+  - split; [exact I4|]. split; [exact F4|]. split; [exact Ell|]. repeat (split; [reflexivity|]).
+    intros o q0 Ho. unfold s4. rewrite cell_store. destruct (Nat.eqb o qo) eqn:E.
+    + apply Nat.eqb_eq in E. subst. rewrite Hq in Ho. inversion Ho; subst. exists q'. auto.
+    + unfold s3. rewrite cell_store. destruct (Nat.eqb o co) eqn:E'.
+      * apply Nat.eqb_eq in E'. subst. rewrite Hc in Ho. discriminate.
+      * exists q0. rewrite Hcell2, Ho. auto.
 Qed.
 
 Lemma frame_restrict s s' L L' :
